@@ -202,7 +202,9 @@ impl<'a> TreeGen<'a> {
             name = format!("{}{}", self.w_prefix, name);
             self.files[child].1 = name.clone();
         }
-        let sub = if self.r.chance(1, 3) { Some(format!("s{}", self.r.below(3))) } else { None };
+        // (one sub-directory in eight is called "~": a name like any other to the kernel, and to
+        // an assembler, which is no shell)
+        let sub = if self.r.chance(1, 3) { Some(if self.r.chance(1, 8) { "~".to_string() } else { format!("s{}", self.r.below(3)) }) } else { None };
         let dot = self.r.chance(1, 8);
         let with_sub = |d: &str, sub: &Option<String>| -> (String, String) {
             match sub {
@@ -1562,6 +1564,7 @@ pub fn worker(cfg: &WorkerCfg, emit: &mut dyn FnMut(Violation)) -> Stats {
         cx.stats.probe("included_file_without_final_newline", opened.iter().any(|e| sc.files.get(&e.1).map(|t| !t.is_empty() && !t.ends_with('\n')).unwrap_or(false)));
         cx.stats.probe("empty_included_file", opened.iter().any(|e| sc.files.get(&e.1).map(|t| t.trim().is_empty()).unwrap_or(false)));
         cx.stats.probe("include_found_through_a_search_directory_spelled_via_a_directory_alias_and_dotdot", !sc.dirlinks.is_empty() && profile.iter().any(|e| e.call == Call::Open && e.ret >= 0 && e.path.contains("/L0/../")));
+        cx.stats.probe("include_written_with_a_leading_tilde_directory_opened", sc.edges.iter().any(|e| e.1.contains("/~/") && opened_in(&profile, &e.1)));
         cx.stats.probe("included_file_whose_name_holds_a_backslash_opened", opened.iter().any(|e| basename(&e.1).contains('\\')));
         cx.stats.probe("chain_of_49_or_more_files_opened", opened.len() >= 49);
         cx.stats.probe("included_file_is_a_symbolic_link_and_includes_a_sibling", opened.iter().any(|e| sc.symlinks.contains_key(&e.1) && sc.files.get(&e.1).map(|t| t.lines().any(|l| parse_include(l).is_some())).unwrap_or(false)));
